@@ -35,7 +35,7 @@ def plan(tier):
 def case(draw, tier):
     a = draw(st.integers(0, 10))
     b = draw(st.integers(0, 10 - a))
-    tps = draw(st.sampled_from([10, 100, 1, 1000, 3, 7, 100000]))
+    tps = draw(st.sampled_from([10, 100, 1, 1000, 3, 7, 100000, 60, 48000, 91000, 700]))
     mode = draw(st.sampled_from(["structure", "freq", "ops", "gap", "shift"]))
     params = {"ticks_per_second": tps, "random_seed": draw(st.integers(0, 2 ** 31 - 1)),
               "waiting_seconds_mean": draw(st.sampled_from([1.0, 0.5, 2.5, 10.0, 0.01, 60.0, 7.25, 1.5])),
@@ -45,7 +45,8 @@ def case(draw, tier):
     if mode == "gap":
         # a mean of 50 .. 1500 ticks, incl. fractional seconds
         w, t = draw(st.sampled_from([(0.5, 100), (1.5, 100), (2.5, 40), (7.25, 200), (10.0, 10), (60.0, 5), (2.5, 100), (1.5, 40),
-                                     (0.5, 1000), (7.25, 40), (60.0, 10), (0.75, 100)]))
+                                     (0.5, 1000), (7.25, 40), (60.0, 10), (0.75, 100), (0.01, 48000), (0.01, 91000), (0.005, 96000),
+                                     (0.5, 700), (2.5, 60), (0.01, 60000)]))
         params["waiting_seconds_mean"], params["ticks_per_second"] = w, t
         params["num_pipelines"] = 1
     elif mode == "ops" and draw(st.booleans()):
